@@ -56,6 +56,28 @@ CHECKS = {
          "order by key then initiation, true part numbers/sizes/ETags, each entry once.",
          "TLC tours with audits + trace validation of recorded walks",
          "arbitrary (not server-returned) upload markers are outside the property"),
+ "C11": ("model_checking",
+         "For every object size 0..6 (thorough 0..12) TLC enumerates every closed/open/suffix range with bounds in "
+         "0..N+2 and the boundary values 2^31-1, 2^31, 2^32, 2^63-2, 2^63-1, plus malformed, non-bytes-unit, multi-range and "
+         "whitespace variants; S3Range!ByteRange predicts slice or InvalidRange; each is issued against every backend and the "
+         "body, Content-Length and Content-Range compared. RangeSound holds on every case.",
+         "exhaustive small-scope enumeration by TLC (spec/MC_Range.tla, S3Range.tla) replayed on every backend",
+         "any 2xx status accepted for a satisfied range (the property pins bytes/Content-Length/Content-Range, not 206)"),
+ "C16": ("model_checking",
+         "S3Route!Resolve is evaluated by TLC on a table of 14 Host values x 18 paths under 6 option combinations and each "
+         "(Host, path) is probed with GET and HEAD against stores holding distinguishable objects (incl. keys that look like "
+         "bucket/key); RouteEquiv is an invariant. The store, versioning and multipart transition tours are replayed with "
+         "virtual-host addressing under host-bucket and host-bucket-base options and with extra slashes, expecting the "
+         "path-style replies.",
+         "TLC-evaluated resolution table + transition tours replayed under addressing modes",
+         "Location of CompleteMultipartUpload not compared"),
+ "C17": ("model_checking",
+         "TLC enumerates every string over {a,z,0,9,-,.,A,_} up to length 5 (thorough 6), all lengths 1..70, label-length "
+         "boundaries and IPv4/IPv6-looking names; S3BucketName!ValidName (cross-checked against a second scan-based "
+         "formulation, NameRule) predicts 200 or InvalidBucketName; each name is PUT to mem, bolt and multi-fs, then "
+         "ListBuckets must show exactly the accepted names and re-creation must answer BucketAlreadyExists.",
+         "exhaustive small-scope enumeration by TLC (spec/MC_Names.tla, S3BucketName.tla) replayed",
+         "non-canonical dotted-decimal names (octet > 255, leading zeros) are don't-care"),
 }
 
 NOT_YET = {}
